@@ -881,3 +881,70 @@ func (e *Engine) algorithmTableObligations() []*Obligation {
 	}
 	return []*Obligation{ob}
 }
+
+// reversedTableObligations: every reading table StringToX is the mechanical reverse of the printing table XToString
+// (`var StringToX = reverseIntN(XToString)` in the package initialiser), so a mnemonic that is printed is a mnemonic
+// that is read; a reading table spelled out by hand could drift from the printing one.
+func (e *Engine) reversedTableObligations() []*Obligation {
+	pairs := [][2]string{{"StringToType", "TypeToString"}, {"StringToClass", "ClassToString"}, {"StringToOpcode", "OpcodeToString"},
+		{"StringToRcode", "RcodeToString"}, {"StringToAlgorithm", "AlgorithmToString"}, {"StringToHash", "HashToString"},
+		{"StringToCertType", "CertTypeToString"}, {"StringToStatefulType", "StatefulTypeToString"},
+		{"StringToExtendedErrorCode", "ExtendedErrorCodeToString"}}
+	found := map[string]string{}
+	for n, fn := range e.funcs {
+		if fn == nil || fn.Pkg == nil || fn.Pkg.Pkg.Path() != dnsPath || !strings.HasPrefix(n, "init") {
+			continue
+		}
+		for _, b := range fn.Blocks {
+			for _, in := range b.Instrs {
+				st, ok := in.(*ssa.Store)
+				if !ok {
+					continue
+				}
+				gl, ok := st.Addr.(*ssa.Global)
+				if !ok {
+					continue
+				}
+				c, ok := st.Val.(*ssa.Call)
+				if !ok {
+					found[gl.Name()] = "not a call"
+					continue
+				}
+				f, ok := c.Call.Value.(*ssa.Function)
+				if !ok || !strings.HasPrefix(f.Name(), "reverseInt") || len(c.Call.Args) != 1 {
+					found[gl.Name()] = "not a call to reverseInt*"
+					continue
+				}
+				if ld, ok := c.Call.Args[0].(*ssa.UnOp); ok {
+					if src, ok := ld.X.(*ssa.Global); ok {
+						found[gl.Name()] = src.Name()
+					}
+				}
+			}
+		}
+	}
+	var bad []string
+	for _, p := range pairs {
+		if found[p[0]] != p[1] {
+			got := found[p[0]]
+			if got == "" {
+				got = "no initialiser found"
+			}
+			bad = append(bad, fmt.Sprintf("%s is not reverseInt*(%s) (%s)", p[0], p[1], got))
+		}
+	}
+	ob := &Obligation{Fn: "reverseInt16", Name: "reverseInt16#tables.reversed", Kind: "layout", Solver: "structural matcher (SSA data flow)"}
+	ob.Src = "every reading table StringToX is initialised as the reverse of its printing table XToString (9 tables)"
+	ob.Clause = &Clause{Label: "tables.reversed", Src: ob.Src}
+	if fn := e.funcs["reverseInt16"]; fn != nil {
+		ob.Pos = fn.Pos()
+	}
+	if len(bad) == 0 {
+		ob.Status = "proved"
+	} else {
+		ob.Status = "failed"
+		ob.Output = strings.Join(bad, "; ")
+		ob.Src += " -- " + ob.Output
+	}
+	return []*Obligation{ob}
+}
